@@ -481,12 +481,16 @@ func main() {
 	raceLog := flag.String("racelog", "", "prefix of GORACE log_path (race build)")
 	stride := flag.Int("stride", 1, "run indices from, from+stride, ...")
 	knownPath := flag.String("known", "", "known findings (JSON list): matching violations are counted, not reported")
+	sigOnly := flag.Bool("sigonly", false, "with -replay: print only the signature line (used by the driver to minimise race-lane tapes across processes)")
 	flag.Parse()
 	activeProp = *prop
 	loadSites(*sitesPath)
 	sort.Slice(scenarios, func(i, j int) bool { return scenarios[i].Name < scenarios[j].Name })
 
 	if *replay != "" {
+		if *sigOnly {
+			os.Exit(replaySignature(*replay))
+		}
 		os.Exit(doReplay(*replay, *raceLog))
 	}
 
@@ -702,6 +706,30 @@ func hashString(s string) uint64 {
 		h *= 1099511628211
 	}
 	return h
+}
+
+// replaySignature replays a tape and prints "SIG <oracle>" (or "SIG none").
+func replaySignature(path string) int {
+	b, err := os.ReadFile(path)
+	if err != nil {
+		return 2
+	}
+	var rf replayFile
+	if json.Unmarshal(b, &rf) != nil {
+		return 2
+	}
+	s := scenarioByName(rf.Scenario)
+	if s == nil {
+		return 2
+	}
+	activeProp = rf.Property
+	v, _, _ := execute(s, simrt.ReplayTape(rf.Tape), newAgg(), false)
+	if v == nil {
+		fmt.Println("SIG none")
+		return 0
+	}
+	fmt.Println("SIG", v.Oracle)
+	return 1
 }
 
 func doReplay(path, raceLog string) int {
